@@ -143,6 +143,7 @@ package nfs
 //@   ensures [W3-flushed] result.Status == 0 ==> lastst == 6 @C07
 //@   ensures [A1-aborted] result.Status != 0 ==> lastst == 3 || lastst == 4 @C09
 //@   ensures [L2-quiet] rpcPost(nfs) @C03 @C06 @C14
+//@   ensures [W4-verf] result.Status == 0 ==> verfEq(result.Resok.Verf, nfs.verf) @C07
 
 // C07 W1/W2/W6, C19 Q2/Q3, C11: WRITE.
 //@ spec (*Nfs).NFSPROC3_WRITE
@@ -159,6 +160,7 @@ package nfs
 //@   ensures [Q3-maxfile] uint64(args.Offset) + uint64(args.Count) < uint64(args.Offset) || uint64(args.Offset) + uint64(args.Count) > 1073774592 ==> result.Status != 0 @C19 @C11
 //@   ensures [W6-count] result.Status == 0 ==> uint64(result.Resok.Count) <= uint64(args.Count) && uint64(args.Count) <= len(args.Data) @C07 @C11 @C02
 //@   ensures [L2-quiet] rpcPost(nfs) @C03 @C06 @C14
+//@   ensures [W4-verf] result.Status == 0 ==> verfEq(result.Resok.Verf, nfs.verf) @C07
 
 // Fn3 (C02), Q3 (C19): SETATTR.
 //@ spec (*Nfs).NFSPROC3_SETATTR
@@ -494,3 +496,11 @@ package nfs
 //@   modifies *
 //@   ensures [R4-up] result != nil && result.fsstate != nil && result.shrinkst != nil && result.Unstable @C01
 
+// W4 (C07): every server instance draws its own write verifier at start-up
+// and hands it out unchanged in WRITE and COMMIT replies.
+//@ specfunc verfEq(a nfstypes.Writeverf3, b nfstypes.Writeverf3) = a[0] == b[0] && a[1] == b[1] && a[2] == b[2] && a[3] == b[3] && a[4] == b[4] && a[5] == b[5] && a[6] == b[6] && a[7] == b[7]
+//@ spec mkWriteVerf
+//@   props C07 C11
+//@   allocates cell:[8]byte
+//@   loop 0 invariant i <= 8
+//@   loop 0 decreases 8 - i
